@@ -10,7 +10,7 @@ def check(pid, text, note, technique, ref):
     CHECKS[pid] = dict(text=text, note=note, technique=technique, ref=ref)
 
 check("C01",
-      "Generated task programs (shape-first: chain/tree/comb/diamond/re-entry comb/staggered/free-form; nested tuple/list/dict yields, DAG sharing, the same object yielded again, synchronous re-entry incl. direct item.value() calls, try/except, contexts, failing leaves) are run on both builds under generated get_priority tables and every calling convention; root outcome and every task's transcript must equal an independent sequential reference interpreter, and be identical across conventions and under the reversed priority table. Search, not proof: evidence reports cases, distinct non-trivial cases and class distribution.",
+      "Generated task programs (shape-first: chain/tree/comb/diamond/re-entry comb/staggered/free-form; nested tuple/list/dict yields, DAG sharing, the same object yielded again, synchronous re-entry incl. direct item.value() calls, try/except, contexts, failing leaves) are run on both builds under generated get_priority tables and every calling convention; root outcome and every task's transcript must equal an independent sequential reference interpreter, and be identical across conventions and under the reversed priority table. An enumerated boundary-size campaign (tuples / lists / dicts / sibling fans of 127..70 000 members, a synchronous call made with 65 537 entries on the scheduler stack) targets narrowed C integer types of the compiled build. Search, not proof: evidence reports cases, distinct non-trivial cases and class distribution.",
       "Trusted: the 170-line reference interpreter (harness/e1/ref.py), the harness batch kinds (written as the README prescribes), Hypothesis. Flush orders are steered via get_priority, a superset of what set-iteration tie-breaks can produce between batches of different kinds.",
       "property-based differential testing against a sequential reference interpreter + metamorphic relations (calling convention, reversed priorities), Hypothesis-generated program ASTs, structural shrinking",
       "DESIGN.md 5/C01")
@@ -21,7 +21,7 @@ check("C02",
       "property-based testing with fault injection at generated positions; differential against a sequential reference + identity/ordering monitors inside the generated task bodies",
       "DESIGN.md 5/C02")
 check("C04",
-      "Yield-only generated programs (unequal depths, DAG sharing, errors, try/except, contexts, 1-3 batch kinds, generated priority tables). At every on_before_batch_flush the harness asserts from its own records that every awaited, uncompleted task has started and still waits on an uncomputed future (induction over the acyclic program gives 'is waiting on an unflushed item'); single-kind programs are additionally compared with an independent round simulator: number of flushes = critical path, and the argument multiset of each flush = the simulator's round.",
+      "Yield-only generated programs (unequal depths, DAG sharing, errors, try/except, contexts, 1-3 batch kinds, generated priority tables). At every on_before_batch_flush the harness asserts from its own records that every awaited, uncompleted task has started and still waits on an uncomputed future (induction over the acyclic program gives 'is waiting on an unflushed item'); single-kind programs are additionally compared with an independent round simulator: number of flushes = critical path, and the argument multiset of each flush = the simulator's round (also on fans of up to 65 537 siblings).",
       "Trusted: round simulator (harness/e1/sim.py), harness bookkeeping of what each task yielded. With several kinds only the invariant is asserted (the flush count is schedule dependent).",
       "property-based testing: invariant checked at every flush event + differential against a round-based reference scheduler",
       "DESIGN.md 5/C04")
@@ -32,17 +32,17 @@ check("C05",
       "DESIGN.md 5/C05")
 
 check("C03",
-      "Generated programs (yield-only, and a second campaign with synchronous re-entry) with tasks awaited by several parents, already-computed futures and the same object yielded again, orphans, empty structures and failures: monitors inside every generated task body assert 'never resumed with an uncomputed future', 'resumes = yields', 'no step after completion', 'orphans never start', 'fresh list/tuple siblings start in the order written'; after value() returns every task the reference says is transitively awaited must be computed. Deep chains (up to 1 500 awaiting tasks in the quick tier, 100 000 in the thorough tier, five yield patterns) must return the closed-form value with exactly one resume per yield. Termination is a bounded check (heartbeat watchdog, case re-run alone before a hang is reported).",
+      "Generated programs (yield-only, and a second campaign with synchronous re-entry) with tasks awaited by several parents, already-computed futures and the same object yielded again, orphans, empty structures and failures: monitors inside every generated task body assert 'never resumed with an uncomputed future', 'resumes = yields', 'no step after completion', 'orphans never start', 'fresh list/tuple siblings start in the order written'; after value() returns every task the reference says is transitively awaited must be computed; the same oracles run on enumerated boundary sizes (fans of up to 65 537 sibling tasks / items). Deep chains (up to 1 500 awaiting tasks in the quick tier, 100 000 in the thorough tier, five yield patterns) must return the closed-form value with exactly one resume per yield. Termination is a bounded check (heartbeat watchdog, case re-run alone before a hang is reported).",
       "Trusted: the monitors in harness/e1/engine.py; liveness is bounded by VERIF_STALL_S (120 s against milliseconds per case).",
       "property-based testing with in-body runtime monitors over generated DAG programs + enumerated deep-chain scalability cases + watchdog",
       "DESIGN.md 5/C03")
 check("C06",
-      "Generated programs with recording AsyncContext blocks (real with statements: spanning several yields, nested, in many concurrently pending tasks, left normally / by delivered error / by early result, with synchronous re-entry and DAG sharing). Oracle per context: resume/pause strictly alternate from entry to exit; at every statement of every task and at every flush the context is active iff its owner is ancestor-or-self (uniquely) of the running task / of the task whose synchronous call drives the flush, and paused if its owner does not reach the running task at all -- computed from the program's await/sync-call graph. NonAsyncContext: yield-only tree programs compared with a NonAsyncContext-aware round simulator (a task fails with AssertionError iff it has to be suspended inside the block).",
+      "Generated programs with recording AsyncContext blocks (real with statements: spanning several yields, nested, in many concurrently pending tasks, left normally / by delivered error / by early result, with synchronous re-entry and DAG sharing). Oracle per context: resume/pause strictly alternate from entry to exit; at every statement of every task and at every flush the context is active iff its owner is ancestor-or-self (uniquely) of the running task / of the task whose synchronous call drives the flush, and paused if its owner does not reach the running task at all -- computed from the program's await/sync-call graph. NonAsyncContext: yield-only tree programs compared with a NonAsyncContext-aware round simulator (a task fails with AssertionError iff it has to be suspended inside the block). One task holding 5..300 contexts at once (boundary sizes) is checked with the same rule.",
       "Trusted: round simulator, the harness's record of the await graph. Nothing is asserted about which of two awaiters' contexts is active for a shared task; contexts whose own pause/resume raise are out of scope here (C08).",
       "property-based testing: runtime monitors + event-log invariants over generated programs; differential against a round simulator for NonAsyncContext",
       "DESIGN.md 5/C06")
 check("C07",
-      "Generated programs with AsyncScopedValue.override / async_override blocks on shared values, reads at generated positions, nested and concurrent overrides in many pending tasks, synchronous re-entry and failures. Oracle: the global resume/pause log of all contexts is well-parenthesised (LIFO); every read equals the dynamic-scope value computed by the sequential reference interpreter; after the call returns or raises every value/attribute equals its initial value.",
+      "Generated programs with AsyncScopedValue.override / async_override blocks on shared values, reads at generated positions, nested and concurrent overrides in many pending tasks, synchronous re-entry and failures. Oracle: the global resume/pause log of all contexts is well-parenthesised (LIFO); every read equals the dynamic-scope value computed by the sequential reference interpreter; after the call returns or raises every value/attribute equals its initial value; override values include None and 0; one task holding 5..300 overrides at once is an enumerated boundary case.",
       "Trusted: reference interpreter's dynamic scoping. Reads inside tasks with two awaiters are not generated (ambiguous scope).",
       "property-based differential testing against a sequential reference (dynamic scoping) + LIFO invariant over the context event log",
       "DESIGN.md 5/C07")
